@@ -28,7 +28,13 @@ CFG = witness.Cfg(nth=False, scope=False)
 
 
 def gen_case(ch, tier='quick'):
-    recipe = trees.gen_recipe(ch, max_elems=12 if tier == 'quick' else 28, attr_names=('title', 'data-x', 'href', 'type'))
+    if ch.p(0.15):
+        # element *type* is (namespace URI, local name): same names under different URIs, one URI under two prefixes
+        recipe = trees.gen_recipe(ch, kinds=('xml-api', 'lxml-xml'), names=('a', 'b'), max_elems=10,
+                                  ns_choices=(None, 'urn:a', 'urn:b'), prefix_choices=(None, 'x', 'y'))
+    else:
+        recipe = trees.gen_recipe(ch, max_elems=12 if tier == 'quick' else 28,
+                                  attr_names=('title', 'data-x', 'href', 'type'))
     doc = trees.materialise(recipe)
     if not doc.all_elements():
         recipe = {'kind': 'html-api', 'top': [trees.E('a')], 'detach': None}
